@@ -300,6 +300,13 @@ impl<'a, 'tcx> Cx<'a, 'tcx> {
                     if let ty::Adt(adt, _) = ty.kind() {
                         let _ = write!(s, ",\"adt\":{}", q(&dpath(self.tcx, adt.did())));
                     }
+                    // pointer to a static: name the static
+                    if let Const::Val(mir::ConstValue::Scalar(mir::interpret::Scalar::Ptr(ptr, _)), _) = c.const_ {
+                        let aid = ptr.provenance.alloc_id();
+                        if let Some(mir::interpret::GlobalAlloc::Static(did)) = self.tcx.try_get_global_alloc(aid) {
+                            let _ = write!(s, ",\"static\":{}", q(&dpath(self.tcx, did)));
+                        }
+                    }
                 }
                 s.push('}');
                 s
